@@ -538,9 +538,13 @@ when the fields read at that site carry exactly one such class (nothing is repor
 several classes are involved; `plain-encodings-differ` when none is) -/
 def pairFails (inp : Inp) (p cur : Seen) : List Fail :=
   let what := s!"same logical trace (t={cur.tid}), outcomes differ: [{p.outcome}] vs [{cur.outcome}]"
-  if p.wire == cur.wire then [{ prop := "C09", sig := "C09:order:permutation-changes-outcome", what := what }] else
+  -- the same spans with the same encodings over the same paths, in another arrival order
+  let isPerm := p.wire == cur.wire
+  let orderFail (site : String) : List Fail :=
+    [{ prop := "C09", sig := "C09:order-dependent:" ++ site, what := what }]
   let get (s : Seen) (k : String) := (kv s.toks k).getD ""
   let attrib (site : String) (classes : List String) : List Fail :=
+    if isPerm then orderFail site else
     match dedupS classes with
     | [] => [mkFail "plain-encodings-differ" site what]
     | [c] => [mkFail c site what]
@@ -550,15 +554,24 @@ def pairFails (inp : Inp) (p cur : Seen) : List Fail :=
     if get p "rate" == get cur "rate" && get p "keep" == get cur "keep" && get p "reason" == get cur "reason" then [] else
     let ip := ruleOfReason inp.rules (dec (get p "reason"))
     let ic := ruleOfReason inp.rules (dec (get cur "reason"))
-    if ip == ic then [mkFail "plain-encodings-differ" "rules-decision" what] else
+    if ip == ic then (if isPerm then orderFail "rules-decision" else [mkFail "plain-encodings-differ" "rules-decision" what]) else
     let idx := match ip, ic with
       | some a, some b => min a b
       | some a, none => a
       | none, some b => b
       | none, none => 0
     match inp.rules[idx]? with
-    | none => [mkFail "plain-encodings-differ" "rules-decision" what]
+    | none => if isPerm then orderFail "rules-decision" else [mkFail "plain-encodings-differ" "rules-decision" what]
     | some r =>
+      if isPerm then
+        -- the call site by the shape of the rule that matched in one arrival order only
+        let isRoot (f : String) := Rules.hasPrefix f Refinery.Gen.Encoding.rootPrefix
+        let plainBeforeRoot (fs : List String) : Bool :=
+          (List.range fs.length).any fun i => !isRoot (fs.getD i "") && ((fs.drop (i + 1)).any isRoot)
+        if r.conds.any (fun c => plainBeforeRoot (Rules.effFields c)) then orderFail "rules-multi-field-root-fallback"
+        else if r.conds.any (fun c => (Rules.effFields c).any isRoot) then orderFail "rules-root-field"
+        else orderFail (match r.scope with | .span => "rules-span-scope" | .trace => "rules-trace-scope" | .invalid => "rules-invalid-scope")
+      else
       let E := extOf inp.g
       let cands := r.conds.flatMap fun c =>
         match condSite E c with
@@ -580,7 +593,7 @@ def pairFails (inp : Inp) (p cur : Seen) : List Fail :=
     (if kp.2 != kc.2 then attrib "root-field-key" (rootFields.flatMap (fieldClasses p cur)) else [])
   let dynFails :=
     if get p "dk" == get cur "dk" && (get p "dr" != get cur "dr" || get p "dkeep" != get cur "dkeep")
-    then [mkFail "plain-encodings-differ" "dynamic-decision" what] else []
+    then (if isPerm then orderFail "dynamic-decision" else [mkFail "plain-encodings-differ" "dynamic-decision" what]) else []
   rulesFails ++ keyFails ++ dynFails
 
 def encMon (m : MSt) (op : List String) (exts : List (List String)) (obs : Option String) : MSt × List Fail :=
